@@ -14,6 +14,8 @@ BLOCK = {'article', 'header', 'aside', 'hgroup', 'blockquote', 'hr', 'iframe', '
 
 
 class _P(HTMLParser):
+    collapse_attr = False
+
     def __init__(self):
         super().__init__(convert_charrefs=False)
         self.out = []
@@ -50,6 +52,8 @@ class _P(HTMLParser):
     def handle_starttag(self, tag, attrs):
         if tag in BLOCK:
             self._strip_trailing()
+        if self.collapse_attr:
+            attrs = [(k, _collapse(v) if v is not None else v) for k, v in attrs]
         self.out.append(('tag', '<' + tag + ''.join(' %s="%s"' % (k, html.escape(v if v is not None else '', quote=True))
                                                    for k, v in sorted((k, v) for k, v in attrs)) + '>'))
         if tag == 'pre':
@@ -101,8 +105,9 @@ def _collapse(s):
     return ''.join(out)
 
 
-def normalize(s):
+def normalize(s, collapse_attr=False):
     p = _P()
+    p.collapse_attr = collapse_attr
     try:
         p.feed(s)
         p.close()
@@ -126,5 +131,6 @@ def _collapse_keep(v):
 
 
 def ws_normalize(s):
-    """For C10: soft line breaks may move, so every whitespace run (outside <pre>) equals one space."""
-    return normalize(s)
+    """For C10: soft line breaks may move, so every whitespace run (outside <pre>) equals one space - also inside
+    attribute values (the alt text of an image may hold a soft break)."""
+    return normalize(s, collapse_attr=True)
